@@ -68,6 +68,11 @@ func (w *Waiter) Next() GenericDataType {
 		data, ok := w.Diode.TryNext()
 		if !ok {
 			if w.isDone() {
+				// A value may have been set between the TryNext above and the
+				// cancellation: look once more so that it is not lost.
+				if data, ok = w.Diode.TryNext(); ok {
+					return data
+				}
 				return nil
 			}
 
